@@ -26,6 +26,21 @@ CHECKS = {
     "C03": gw("Seeded schedule search over close histories (explicit close / end of body / reference drop) with in-flight data, "
               "1-3 blocked receivers, waitclose callers and endmarker callbacks; probes after each observation.",
               "DESIGN.md 3/C03", "history oracle with scripted post-observation probes"),
+    "C04": (True, "fault_enumeration",
+            "Crash-point enumeration: for a fixed generated family of 10 small workloads x {popen, socket} x {worker dies, "
+            "initiator dies}, the thorough tier cuts the peer->survivor byte stream at EVERY offset n in [0, L] (SIGKILL of "
+            "the writer at that byte) once and then samples further schedules; the quick tier samples (workload, n, schedule). "
+            "Plus SIGKILL at generated sync points and death of a proxied sub / forwarder. Oracle: survivor gets exactly the "
+            "complete frames (independent parser), then EOFError / endmarker, nothing hangs, gateway refuses work once stopped.",
+            GW_NOTE + " Enumeration is over cut offsets of this workload family (one schedule per offset in the exhaustive "
+            "phase), not over schedules.", "DESIGN.md 3/C04",
+            TECH + "; byte-exact cut + SIGKILL enumeration, independent wire parser"),
+    "C05": gw("Seeded search over topologies (popen / via / socket), worker programs (idle, blocked, busy, sleeping, "
+              "interrupt-swallowing, extra threads), injected SIGSTOP/SIGKILL/SIGINT, a blocked sender, timeouts {0.1,1,5} and "
+              "failing makegateway calls; oracle: terminate returns without raising within 2*T*(N+P)+1 simulated seconds, "
+              "group empty, every local child exited, failed makegateway leaves no process.",
+              "DESIGN.md 3/C05", "process/signal fault injection, bounded-liveness oracle in simulated time",
+              "Two terminate-blocked scenarios are listed known findings."),
     "C07": gw("Seeded schedule search over failure positions of raising bodies / raising callbacks (channel alive or dropped) "
               "with sibling traffic and a liveness probe; scripted expected outcomes per op.",
               "DESIGN.md 3/C07", "scripted-expectation oracle",
@@ -49,10 +64,20 @@ CHECKS = {
               "endings by end-of-body / raise / sub-channel close / SIGKILL, receive() probes and MultiChannel receive queues; "
               "callback sequence compared with the wire order from the hand-over point, endmarker exactly once.",
               "DESIGN.md 3/C10", "history oracle vs. ground-truth wire log; kill faults"),
+    "C11": gw("Seeded search over the moment and manner of losing the initiator (SIGKILL at a sync point, byte-exact cut inside "
+              "a frame, normal exit, write side closed only, death of a via master) x worker programs x backends x topologies; "
+              "the real 5 s / SIGINT / 10 s / os._exit ladder runs in simulated time; oracle: every worker has exited within "
+              "16 simulated seconds per hop.",
+              "DESIGN.md 3/C11", "crash injection, bounded-liveness oracle in simulated time"),
     "C14": gw("Seeded schedule search over histories of 1-5 remote_exec outcomes (return/raise/SystemExit/SIGINT/blocked) with "
               "sequential and overlapping submission on main_thread_only workers: main-thread identity, one at a time, "
               "submission order, documented deadlock error for overlaps only.",
               "DESIGN.md 3/C14", "scripted-expectation oracle + body-span checks"),
+    "C18": gw("Seeded schedule search with line preemption aimed at the id allocator over concurrent channel creation on both "
+              "sides (ids pairwise distinct), and long lockstep histories (10-400, thorough up to 3000 cycles) of open -> "
+              "transfer (bare/nested) -> use -> close/drop(+gc) conversations (items arrive on the originator's channel, "
+              "numchannels / 'active channels' do not grow).",
+              "DESIGN.md 3/C18", "targeted line preemption; long-history conservation oracle"),
 }
 
 NA = {
